@@ -146,3 +146,65 @@ impl FromSpecImpl<ffi::RetryStrategy> for Box<dyn crate::rodbus::client::RetrySt
     open spec fn obeys_from_spec() -> bool { false }
     open spec fn from_spec(from: ffi::RetryStrategy) -> Self { arbitrary() }
 }
+
+// ---- [C18] the channel constructors: queue size, reconnect strategy, decode level, serial settings and TLS configuration reach the
+// rodbus constructor unchanged, and a state listener is always installed.  (R23: the null check of the runtime pointer - and for TLS the
+// conversion of the TLS configuration object and the address parsing - are not part of the verified text)
+pub struct CStr__ { pub x: u8 }
+impl CStr__ {
+    #[verifier::external_body]
+    pub fn to_string_lossy(&self) -> (r: String) { unimplemented!() }
+}
+pub uninterp spec fn spec_host_addr(host: &CStr__, port: u16) -> rodbus::client::HostAddr;
+// (the real get_host_addr parses text: std::net::IpAddr::from_str / CStr::to_str, outside the verifier's reach)
+#[verifier::external_body]
+pub fn get_host_addr(host: &CStr__, port: u16) -> (r: Result<rodbus::client::HostAddr, ffi::ParamError>)
+    ensures r matches Ok(h) ==> h == spec_host_addr(host, port) { unimplemented!() }
+//@trusted ffi client.rs get_host_addr: assumed (text parsing of the host string; `spec_host_addr` uninterpreted)
+pub struct EnterGuard__ { pub x: u8 }
+impl crate::Runtime {
+    #[verifier::external_body]
+    pub fn enter(&self) -> (r: EnterGuard__) { unimplemented!() }
+}
+impl FromSpecImpl<ffi::ClientStateListener> for Box<dyn Listener<ClientState>> {
+    open spec fn obeys_from_spec() -> bool { false }
+    open spec fn from_spec(from: ffi::ClientStateListener) -> Self { arbitrary() }
+}
+impl FromSpecImpl<ffi::PortStateListener> for Box<dyn Listener<rodbus::client::PortState>> {
+    open spec fn obeys_from_spec() -> bool { false }
+    open spec fn from_spec(from: ffi::PortStateListener) -> Self { arbitrary() }
+}
+impl From<ffi::ClientStateListener> for Box<dyn Listener<ClientState>> {
+//@fn ffi/rodbus-ffi/src/client.rs | From<ffi::ClientStateListener> for Box<dyn Listener<ClientState>>::from | tags=C18
+}
+impl From<ffi::PortStateListener> for Box<dyn Listener<rodbus::client::PortState>> {
+//@fn ffi/rodbus-ffi/src/client.rs | From<ffi::PortStateListener> for Box<dyn Listener<rodbus::client::PortState>>::from | tags=C18
+}
+pub open spec fn created(p: *mut ClientChannel, max_queued_requests: u16, retry_strategy: ffi::RetryStrategy, decode_level: ffi::DecodeLevel) -> bool {
+    let c = crate::ffi_server::pointee(p).inner;
+    c.calls.len() == 0 && c.cfg.max_queued == max_queued_requests as usize && c.cfg.has_listener
+    && c.cfg.retry_min == ffi::spec_millis(retry_strategy.min_delay) && c.cfg.retry_max == ffi::spec_millis(retry_strategy.max_delay)
+    && c.cfg.decode == crate::helpers::conversions::spec_decode_level(decode_level)
+}
+//@fn ffi/rodbus-ffi/src/client.rs | client_channel_create_tcp | tags=C18 | r23=1 r10 | bsub=Box::into_raw(Box::new(=>crate::ffi_server::Box::into_raw(crate::ffi_server::Box::new(
+//@suffix| pub fn client_channel_create_tcp(runtime: &crate::Runtime, host: &CStr__, port: u16, max_queued_requests: u16, retry_strategy: ffi::RetryStrategy,
+//@suffix|     decode_level: ffi::DecodeLevel, listener: ffi::ClientStateListener) -> (r: Result<*mut crate::ClientChannel, ffi::ParamError>)
+//@|    ensures r matches Ok(p) ==> created(p, max_queued_requests, retry_strategy, decode_level)
+//@|        && crate::ffi_server::pointee(p).inner.cfg.host == Some(spec_host_addr(host, port)) && crate::ffi_server::pointee(p).inner.cfg.tls is None
+//@|        && crate::ffi_server::pointee(p).inner.cfg.serial is None,
+//@fn ffi/rodbus-ffi/src/client.rs | client_channel_create_rtu | tags=C18 | r23=1 | bsub=Box::into_raw(Box::new(=>crate::ffi_server::Box::into_raw(crate::ffi_server::Box::new(
+//@suffix| pub fn client_channel_create_rtu(runtime: &crate::Runtime, path: &CStr__, serial_params: ffi::SerialPortSettings, max_queued_requests: u16,
+//@suffix|     retry_strategy: ffi::RetryStrategy, decode_level: ffi::DecodeLevel, listener: ffi::PortStateListener) -> (r: Result<*mut crate::ClientChannel, ffi::ParamError>)
+//@|    ensures r matches Ok(p) ==> created(p, max_queued_requests, retry_strategy, decode_level)
+//@|        && crate::ffi_server::pointee(p).inner.cfg.serial == Some(crate::helpers::conversions::spec_serial_settings(serial_params))
+//@|        && crate::ffi_server::pointee(p).inner.cfg.tls is None && crate::ffi_server::pointee(p).inner.cfg.host is None,
+//@fn ffi/rodbus-ffi/src/client.rs | client_channel_create_tls | tags=C09,C18 | r23=3 | bsub=Box::into_raw(Box::new(=>crate::ffi_server::Box::into_raw(crate::ffi_server::Box::new(
+//@suffix| pub fn client_channel_create_tls(runtime: &crate::Runtime, host_addr: rodbus::client::HostAddr, tls_config: rodbus::client::TlsClientConfig,
+//@suffix|     max_queued_requests: u16, retry_strategy: ffi::RetryStrategy, decode_level: ffi::DecodeLevel, listener: ffi::ClientStateListener)
+//@suffix|     -> (r: Result<*mut crate::ClientChannel, ffi::ParamError>)
+//@|    ensures r matches Ok(p) ==> created(p, max_queued_requests, retry_strategy, decode_level)
+//@|        && crate::ffi_server::pointee(p).inner.cfg.host == Some(host_addr) && crate::ffi_server::pointee(p).inner.cfg.tls == Some(tls_config)
+//@|        && crate::ffi_server::pointee(p).inner.cfg.serial is None,
+// not under contract (CStr / str glue): guarded against change only
+//@reviewed ffi/rodbus-ffi/src/client.rs | TryFrom<ffi::TlsClientConfig> for rodbus::client::TlsClientConfig::try_from | tags=C09,C18
+//@reviewed ffi/rodbus-ffi/src/client.rs | get_host_addr | tags=C18
